@@ -1,6 +1,7 @@
 """C14: a watch-mode rebuild is equivalent to a restart (DIRX with the real kernel inotify)."""
 
 import itertools
+import os
 
 from .. import canon, hist, projects
 from ..dirx import Obs, describe, fresh_world, session
@@ -91,10 +92,18 @@ def new_directory_root_cause(files, ops, problems):
     step and output made for it."""
     import os
 
-    initial_dirs = {os.path.dirname(p) for p in files}
+    initial_dirs = set()
+    for p in files:
+        d = os.path.dirname(p.rstrip("/"))
+        while d and d not in initial_dirs:
+            initial_dirs.add(d)
+            d = os.path.dirname(d)
     new_dirs = {os.path.dirname(op[1]) for op in ops
                 if len(op) > 1 and op[0] in ("create", "modify", "recreate", "modify_restore", "restore")
                 and os.path.dirname(op[1]) and os.path.dirname(op[1]) not in initial_dirs}
+    # a directory renamed to a new name at the wildcard level is a new directory too
+    new_dirs |= {op[2] for op in ops if op[0] == "rename" and os.path.dirname(op[2]) in initial_dirs
+                 and op[1] in initial_dirs | new_dirs and op[2] not in initial_dirs}
     if not new_dirs or "returncode" in problems:
         return False
     names = {os.path.basename(d) for d in new_dirs}
@@ -135,6 +144,10 @@ def op_menu(name):
 
 def apply_op(world, op, originals):
     kind, path = op[0], op[1]
+    if kind in ("restore", "create", "modify", "recreate", "modify_restore") and os.path.isdir(world.abspath(path)):
+        # the path was turned into a directory by an earlier operation: the user puts a file
+        # back in its place
+        world.remove(path)
     if kind == "restore":
         world.write(path, originals[path])
     elif kind == "create":
